@@ -85,12 +85,18 @@ RENAMINGS = [
  ("rename-resolver-iter", "_iter_items_with_path", "_walk", ["C13"]),
  ("rename-args-mapping", "get_args_mapping_dict", "mapping_for", ["C13"]),
  ("rename-times-regex", "get_min_max_regex", "quantifier_text", ["C02", "C03", "C04"]),
+ ("rename-observer-field-addr-list", "addr_list", "hit_list", ["C11", "C12", "C13", "C14", "C20"]),
+ ("rename-resolve-method", "resolve", "substitute_args", ["C13", "C19"]),
+ ("rename-perform-matching", "perform_matching", "execute_matching", ["C12", "C14", "C17", "C20"]),
+ # new name NOT fresh (`run` also names subprocess.run): no global substitution is sound; the old name becomes an alias, contracts that
+ # stub the method are undecided (exit 2) -- never a violation
+ ("rename-perform-matching-to-existing-name", "perform_matching", "run", ["C12", "C14", "C17", "C20"], "no-violation"),
  ("rename-deref-former", "_get_regex_from_full_deref", "_full_form", ["C06", "C05"]),
 ]
 
 
 def run(entry, expect):
-    if len(entry) == 4:
+    if isinstance(entry[3], list) and isinstance(entry[1], str) and not entry[1].endswith(".py"):
         return run_rename(entry)
     ident, f, old, new, props = entry
     S = tempfile.mkdtemp(prefix="vfself.")
@@ -120,7 +126,8 @@ def run(entry, expect):
 
 def run_rename(entry):
     import re
-    ident, old, new, props = entry
+    ident, old, new, props = entry[:4]
+    lenient = len(entry) > 4
     S = tempfile.mkdtemp(prefix="vfself.")
     try:
         os.makedirs(os.path.join(S, "src"))
@@ -143,7 +150,8 @@ def run_rename(entry):
         for pr in props:
             r = subprocess.run([os.path.join(V, "check"), pr], capture_output=True, text=True, env=dict(os.environ, JASM_REPO=S))
             res[pr] = r.returncode
-        return ident, "as-expected" if all(v == 0 for v in res.values()) else "UNEXPECTED", res
+        ok = all(v in (0, 2) for v in res.values()) if lenient else all(v == 0 for v in res.values())
+        return ident, "as-expected" if ok else "UNEXPECTED", res
     finally:
         shutil.rmtree(S, ignore_errors=True)
 
